@@ -63,17 +63,17 @@ func (m simMsg) Type() uint8 {
 
 // simSess is one transport connection of a scripted peer.
 type simSess struct {
-	sim    *simNet
-	peer   *simPeerDef
-	conn   net.Conn // harness end
-	mu     sync.Mutex
-	rx     []simMsg
-	eof    bool
-	eofAt  time.Duration
-	junk   []byte // bytes that did not frame as a BGP message
-	done   chan struct{}
-	wrErr  error
-	opened time.Duration
+	sim      *simNet
+	peer     *simPeerDef
+	conn     net.Conn // harness end
+	mu       sync.Mutex
+	rx       []simMsg
+	eof      bool
+	eofAt    time.Duration
+	junk     []byte // bytes that did not frame as a BGP message
+	done     chan struct{}
+	wrErr    error
+	opened   time.Duration
 	weClosed bool // the harness closed its end
 }
 
@@ -86,13 +86,13 @@ type simPeerDef struct {
 }
 
 type simNet struct {
-	s       *BgpServer
-	t0      time.Time
-	sesss   []*simSess
-	mu      sync.Mutex
-	peerEvs []simPeerEvent
+	s           *BgpServer
+	t0          time.Time
+	sesss       []*simSess
+	mu          sync.Mutex
+	peerEvs     []simPeerEvent
 	watchCancel context.CancelFunc
-	stopped bool
+	stopped     bool
 	// beforeLeakCheck (optional) ends the scenario's own goroutines after the server was stopped and its
 	// connections were looked at, before the leftover-goroutine check
 	beforeLeakCheck func()
